@@ -53,3 +53,23 @@ Definition stmt_depot_limits_unrestricted_refuted : Prop :=
          (forall ty, In ty (type_ids nw0) -> spawned_same_type (s_usage s) d ty <= capacity_of nw0 d ty) /\
          spawned_total nw0 (s_usage s) d <= total_capacity_of nw0 d).
 End D.
+
+(** ** after the repair of F1 ("fix: a start depot handed to the receiver must have room for it") the restriction on
+    the moved segment is no longer needed: depot capacities are an invariant of all histories with valid Paths and fit
+    between different tours (plus set_next_day_transitions) *)
+Section D2.
+Variable nw : network.
+Inductive qstep : schedule -> schedule -> Prop :=
+| qs_w s s' : wstep nw s s' -> qstep s s'
+| qs_set_trans s trans : trans_valid nw s trans -> qstep s (set_next_day_transitions s trans).
+Inductive qreachable : schedule -> Prop :=
+| qr_empty s : empty_schedule nw = Ok s -> qreachable s
+| qr_step s s' : qreachable s -> qstep s s' -> qreachable s'.
+Definition stmt_qreachable_depot_limits : Prop :=
+  net_ok_b nw = true -> forall s, qreachable s -> DepotLimitsOK nw s.
+End D2.
+Definition stmt_qreachable_depot_limits_loaded : Prop :=
+  forall i perm nw, load i perm = Ok nw ->
+    (forall d, In d (match i_depots i with Some l => l | None => [] end) ->
+       0 <= id_cap d /\ forall t c, In (t, Some c) (id_allowed d) -> 0 <= c) ->
+    stmt_qreachable_depot_limits nw.
